@@ -2,12 +2,15 @@
 from vf.driver import contract_units
 
 LEVEL = "proof"
-MODULES = ["contracts.c_access", "contracts.c_engine", "contracts.c_request"]
+MODULES = ["contracts.c_access", "contracts.c_engine", "contracts.c_request", "contracts.c_template"]
 EXPLANATION = ("Version acceptance, the per-operation version gate (decorator wrapper interpreted from "
                "its own source with the live closure values) and dispatch are proved for all "
-               "operations x supported versions; the field x version matrix comes from ttlvsym.")
+               "operations x supported versions; for every structure class and version the set of tags the "
+               "real decoder accepts (ttlvsym, decoder-driven) contains no tag that a later version of the "
+               "specification introduced (tag blocks per version from the KMIP tag tables).")
 
 
 def units(ctx):
-    from vf import facts
-    return contract_units("C16", MODULES, ctx) + facts.units(["versions"], ctx)
+    from vf import facts, ttlvunits
+    return contract_units("C16", MODULES, ctx) + facts.units(["versions", "tag_blocks"], ctx) + \
+        ttlvunits.make_units(ctx, "C16")
